@@ -150,13 +150,34 @@ def complete(tree, rules):
     return imp, merge_dicts(tree, imp)
 
 
+def _history_result():
+    import json
+    import os
+    import subprocess
+    import sys
+    from harness.core import paths
+    env = dict(os.environ)
+    env["PYTHONWARNINGS"] = "ignore"
+    p = subprocess.run([sys.executable, "-W", "ignore", "-c", _HIST_CODE % (paths.VERIF, paths.REPO)],
+                       stdout=subprocess.PIPE, stderr=subprocess.PIPE, cwd=paths.VERIF, env=env, timeout=600)
+    if p.returncode != 0:
+        raise RuntimeError("history process failed: " + p.stderr.decode()[-2000:])
+    return json.loads(p.stdout.decode())
+
+
 def impl(case):
+    if case["kind"] == "rules-history":
+        res = _history_result()
+        i = [list(v) for v in res["variants"]].index([case["model"], case["tags"]])
+        return {"differs": res[case["order"]][i] != res["fresh"][i]}
     rules = rules_of(case)
     imp, m = complete(rbgen.to_odict(case["tree"]), rules)
     return {"implicit": rbgen.to_list(imp), "merged": rbgen.to_list(m)}
 
 
 def requests(case):
+    if case["kind"] == "rules-history":
+        return []
     return [dict(op="c17.complete", rules=dump_rules(rules_of(case)), tree=case["tree"])]
 
 
@@ -344,6 +365,9 @@ def _spurious(t, u, diff, rules, out, where=""):
 
 
 def oracle(case, r):
+    if case["kind"] == "rules-history":
+        return [dict(sig="implicit-rules-depend-on-history", what="implicit.compile_rules for (%r, tags %r) after other "
+                     "devices in the same process differs from a fresh process" % (case["model"], case["tags"]))] if r.get("differs") else []
     out = []
     rules = rules_of(case)
     t = rbgen.to_odict(case["tree"])
@@ -398,3 +422,63 @@ def shrink_candidates(case):
                     yield tree[:i] + [[tree[i][0], sub]] + tree[i + 1:]
         for nt in drops(t):
             yield dict(case, **{key: nt})
+
+
+# ------------------------------------------------------------------ history: the rules of a device depend on (model, tags) only
+TAG_VARIANTS = [[], ["spine1"]]
+_HIST_CODE = ("import sys; sys.setrecursionlimit(10000); sys.path.insert(0, %r); sys.path.insert(0, %r); "
+              "import harness.props.c17 as m; m.history_main()")
+
+
+def _rules_dump(model, tags):
+    from annet import implicit
+    return dump_rules(implicit.compile_rules(Dev(model, tags)))
+
+
+def history_main():
+    """run in a python process of its own.  First every (model, tags) variant in a forked child of the still pristine
+    parent (no variant ever sees another), then all variants one after the other in the parent, forwards and backwards
+    (a long-lived process serving many devices).  stdout: {"fresh": [...], "seq": [...]}"""
+    import json
+    import os
+    import sys
+    rbgen.setup()
+    import annet.implicit  # noqa
+    variants = [(m, t) for m, _ in BRANCHES for t in TAG_VARIANTS]
+
+    def forked(v):
+        r, w = os.pipe()
+        pid = os.fork()
+        if pid == 0:
+            try:
+                os.close(r)
+                with os.fdopen(w, "w") as f:
+                    f.write(json.dumps(_rules_dump(*v)))
+            finally:
+                os._exit(0)
+        os.close(w)
+        with os.fdopen(r) as f:
+            data = f.read()
+        os.waitpid(pid, 0)
+        return json.loads(data) if data else None
+    fresh = [forked(v) for v in variants]
+    seq = [_rules_dump(*v) for v in variants]
+    back = [_rules_dump(*v) for v in reversed(variants)][::-1]
+    sys.stdout.write(json.dumps({"variants": variants, "fresh": fresh, "seq": seq, "back": back}))
+
+
+def extra(tier, seed, ctx):
+    res = _history_result()
+    viol = []
+    for i, (model, tags) in enumerate(res["variants"]):
+        for name in ("seq", "back"):
+            if res[name][i] != res["fresh"][i]:
+                viol.append(dict(case=dict(kind="rules-history", model=model, tags=tags, order=name), impl={"differs": True},
+                                 sig="implicit-rules-depend-on-history",
+                                 what="implicit.compile_rules for (%r, tags %r) after other devices in the same process differs "
+                                      "from a fresh process" % (model, tags)))
+                break
+        if viol:
+            break
+    return dict(violations=viol, evaluations=3 * len(res["variants"]),
+                coverage=dict(rule_sets_compared_with_fresh_process=2 * len(res["variants"])))
